@@ -178,6 +178,20 @@ example : rcGate Gen.Token.deserializeSep [48, 49, 124, 100] [100] = .resume [48
     ∧ rcGate Gen.Token.deserializeSep [124, 100] [100] = .invalid
     ∧ rcGate Gen.Token.deserializeSep [] [100] = .start := by decide
 
+/-! ## the SQL datastores' position serializer (pkg/storage/sqlcommon) -/
+
+def expectedSqlDeserializeBody : String :=
+  "{ var token ContToken if err := json.Unmarshal([]byte(continuationToken), &token); err != nil { return \"\", \"\", storage.ErrInvalidContinuationToken } return token.Ulid, token.ObjectType, nil }"
+
+set_option maxRecDepth 100000 in
+/-- `SQLContinuationTokenSerializer` is `json.Marshal` / `json.Unmarshal` of one struct with the two fields in
+place (the round trip is then encoding/json's, exercised by the `sqlser` correspondence cases) -/
+theorem tie_sql_serializer :
+    (Gen.Token.sqlSerializeBody ==
+      "{ if ulid == \"\" { return nil, errors.New(\"empty ulid provided for continuation token\") } return json.Marshal(NewContToken(ulid, objType)) }") = true
+    ∧ (Gen.Token.sqlDeserializeBody == expectedSqlDeserializeBody) = true
+    ∧ Gen.Token.sqlNewContTokenBody = "{ return &ContToken{ Ulid: ulid, ObjectType: objectType, } }" := by decide
+
 /-! ## base64 (URL alphabet, padded) -/
 
 theorem decChar_encChar_fin : ∀ i : Fin 64, decChar (encChar i.val) = some i.val := by decide
